@@ -38,7 +38,45 @@ def cells(tier, lens=None, angs=None, extra_angs=()):
     for l in lens:
         for t in trip:
             out.append([float(l[0]), float(l[1]), float(l[2]), float(t[0]), float(t[1]), float(t[2])])
+    # cells that occur as literals in the library's own source (a shortcut or a cache is most likely to key on them), and a ladder of
+    # overall scale: protein/virus-size cells and absurdly small ones are still "a, b, c > 0"
+    for c in SPECIAL_CELLS:
+        if c not in out:
+            out.append(list(c))
     return out
+
+
+SPECIAL_CELLS = [[1.0, 1.0, 1.0, 90.0, 90.0, 120.0], [1.0, 1.0, 1.0, 90.0, 90.0, 90.0], [480.0, 480.0, 480.0, 90.0, 90.0, 90.0], [350.0, 600.0, 520.0, 90.0, 105.0, 90.0],
+                 [0.05, 0.07, 0.02, 80.0, 95.0, 100.0], [3.0, 3.5, 400.0, 90.0, 90.0, 90.0], [5.0, 6.0, 7.0, 80.0, 95.0, 100.0]]
+
+
+def dirty_call(fn, args_before, args_now, pos=0):
+    """History probe: the argument at position `pos` is a buffer the caller reuses.  For each buffer kind (list, float64 array)
+    fill the buffer with args_before[pos], call fn, overwrite the buffer IN PLACE with args_now[pos], call fn again and yield
+    (kind, result of the second call).  The oracle judges it for args_now.  A memo keyed on object identity returns stale data."""
+    for kind in ("list", "ndarray"):
+        if kind == "list":
+            buf = [float(x) for x in np.asarray(args_before[pos], float).reshape(-1)] if np.ndim(args_before[pos]) == 1 else np.asarray(args_before[pos], float).tolist()
+        else:
+            buf = np.array(args_before[pos], float)
+        a = list(args_before)
+        a[pos] = buf
+        try:
+            fn(*a)
+        except Exception:
+            pass
+        new = np.asarray(args_now[pos], float)
+        if kind == "list":
+            if new.ndim == 1:
+                buf[:] = [float(x) for x in new]
+            else:
+                for i, row in enumerate(new.tolist()):
+                    buf[i][:] = row
+        else:
+            buf[...] = new
+        b = list(args_now)
+        b[pos] = buf
+        yield kind, fn(*b)
 
 
 def coarse_cells(tier):
